@@ -1,0 +1,469 @@
+// Verification stand-ins. Compiled only under `--cfg flacenc_verif --cfg flacenc_verif_loom`.
+//
+// `par.rs` imports the two modules below under the names `std` and
+// `crossbeam_channel`; a local name shadows the extern prelude, so every line
+// of `par.rs` is compiled unchanged against loom-backed synchronisation
+// primitives. Every operation is also appended to an event log that the
+// model-checking harness reads (thread, operation, object, value).
+
+#![allow(missing_docs, clippy::pedantic, clippy::nursery, clippy::all)]
+
+use ::std::any::Any;
+use ::std::collections::VecDeque;
+use ::std::sync::atomic::{AtomicUsize, Ordering};
+use ::std::sync::Mutex as StdMutex;
+
+/// One logged synchronisation event.
+#[derive(Clone, Debug, PartialEq, Eq)]
+pub struct Event {
+    /// logical thread: 0 = caller, 1.. = spawn order
+    pub thread: usize,
+    /// operation name
+    pub op: &'static str,
+    /// object id (channel / mutex / thread), by creation order per kind
+    pub obj: usize,
+    /// value carried (buffer id, `-1` for `None`, payload length, ...)
+    pub val: i64,
+}
+
+struct Global {
+    log: Vec<Event>,
+    panics: Vec<(usize, String)>,
+    next_thread: usize,
+    next_chan: usize,
+    next_mutex: usize,
+    live: usize,
+    logging: bool,
+}
+
+static GLOBAL: StdMutex<Global> = StdMutex::new(Global {
+    log: Vec::new(),
+    panics: Vec::new(),
+    next_thread: 1,
+    next_chan: 0,
+    next_mutex: 0,
+    live: 0,
+    logging: true,
+});
+static PARALLELISM: AtomicUsize = AtomicUsize::new(2);
+
+fn global() -> ::std::sync::MutexGuard<'static, Global> {
+    GLOBAL.lock().unwrap_or_else(|e| e.into_inner())
+}
+
+loom::thread_local! {
+    static TID: ::std::cell::Cell<usize> = ::std::cell::Cell::new(0);
+}
+
+fn tid() -> usize {
+    TID.with(|c| c.get())
+}
+
+fn log(op: &'static str, obj: usize, val: i64) {
+    let t = tid();
+    let mut g = global();
+    if g.logging {
+        g.log.push(Event {
+            thread: t,
+            op,
+            obj,
+            val,
+        });
+    }
+}
+
+fn logval<T: 'static>(v: &T) -> i64 {
+    let a = v as &dyn Any;
+    if let Some(x) = a.downcast_ref::<usize>() {
+        *x as i64
+    } else if let Some(x) = a.downcast_ref::<Option<usize>>() {
+        x.map_or(-1, |y| y as i64)
+    } else if let Some(x) = a.downcast_ref::<Vec<u8>>() {
+        x.len() as i64
+    } else {
+        -2
+    }
+}
+
+/// Resets the per-execution state (call at the start of every model execution).
+pub fn reset() {
+    let mut g = global();
+    g.log.clear();
+    g.panics.clear();
+    g.next_thread = 1;
+    g.next_chan = 0;
+    g.next_mutex = 0;
+    g.live = 0;
+}
+
+/// Enables or disables event logging (counters keep running).
+pub fn set_logging(on: bool) {
+    global().logging = on;
+}
+
+/// Takes the event log of the current execution.
+pub fn take_log() -> Vec<Event> {
+    ::std::mem::take(&mut global().log)
+}
+
+/// Number of spawned threads that have not finished.
+pub fn live_threads() -> usize {
+    global().live
+}
+
+/// Threads that ended by panicking in this execution: (thread, message).
+pub fn panics() -> Vec<(usize, String)> {
+    global().panics.clone()
+}
+
+/// Sets the answer of `available_parallelism`.
+pub fn set_parallelism(n: usize) {
+    PARALLELISM.store(n, Ordering::SeqCst);
+}
+
+pub mod std {
+    pub use ::std::*;
+
+    pub mod thread {
+        use super::super::{global, log, PARALLELISM, TID};
+        use ::std::num::NonZeroUsize;
+        use ::std::panic::{catch_unwind, AssertUnwindSafe};
+        use ::std::sync::atomic::Ordering;
+
+        pub struct JoinHandle<T> {
+            inner: loom::thread::JoinHandle<::std::thread::Result<T>>,
+            tid: usize,
+        }
+
+        impl<T> JoinHandle<T> {
+            pub fn join(self) -> ::std::thread::Result<T> {
+                let r = self.inner.join();
+                let flat = match r {
+                    Ok(inner) => inner,
+                    Err(e) => Err(e),
+                };
+                log("join", self.tid, if flat.is_ok() { 0 } else { 1 });
+                flat
+            }
+        }
+
+        pub fn spawn<F, T>(f: F) -> JoinHandle<T>
+        where
+            F: FnOnce() -> T + Send + 'static,
+            T: Send + 'static,
+        {
+            let tid = {
+                let mut g = global();
+                let t = g.next_thread;
+                g.next_thread += 1;
+                g.live += 1;
+                t
+            };
+            log("spawn", tid, 0);
+            let inner = loom::thread::Builder::new()
+                .stack_size(4 << 20)
+                .spawn(move || {
+                    TID.with(|c| c.set(tid));
+                    let r = catch_unwind(AssertUnwindSafe(f));
+                    match &r {
+                        Ok(_) => log("exit", tid, 0),
+                        Err(p) => {
+                            let msg = if let Some(s) = p.downcast_ref::<&str>() {
+                                (*s).to_string()
+                            } else if let Some(s) = p.downcast_ref::<String>() {
+                                s.clone()
+                            } else {
+                                "<payload>".to_string()
+                            };
+                            global().panics.push((tid, msg));
+                            log("panic", tid, 0);
+                        }
+                    }
+                    global().live -= 1;
+                    r
+                })
+                .expect("loom spawn");
+            JoinHandle { inner, tid }
+        }
+
+        pub fn available_parallelism() -> ::std::io::Result<NonZeroUsize> {
+            Ok(NonZeroUsize::new(PARALLELISM.load(Ordering::SeqCst).max(1)).unwrap())
+        }
+    }
+
+    pub mod sync {
+        use super::super::{global, log};
+        use ::std::fmt;
+        use ::std::ops::{Deref, DerefMut};
+
+        #[derive(Debug)]
+        pub struct PoisonError;
+
+        pub struct Mutex<T> {
+            inner: loom::sync::Mutex<T>,
+            id: usize,
+        }
+
+        pub struct MutexGuard<'a, T> {
+            inner: Option<loom::sync::MutexGuard<'a, T>>,
+            id: usize,
+        }
+
+        impl<T> Mutex<T> {
+            pub fn new(v: T) -> Self {
+                let id = {
+                    let mut g = global();
+                    let i = g.next_mutex;
+                    g.next_mutex += 1;
+                    i
+                };
+                Self {
+                    inner: loom::sync::Mutex::new(v),
+                    id,
+                }
+            }
+
+            pub fn lock(&self) -> Result<MutexGuard<'_, T>, PoisonError> {
+                let g = self.inner.lock().map_err(|_| PoisonError)?;
+                log("lock", self.id, 0);
+                Ok(MutexGuard {
+                    inner: Some(g),
+                    id: self.id,
+                })
+            }
+
+            pub fn into_inner(self) -> Result<T, PoisonError> {
+                self.inner.into_inner().map_err(|_| PoisonError)
+            }
+        }
+
+        impl<T: fmt::Debug> fmt::Debug for Mutex<T> {
+            fn fmt(&self, f: &mut fmt::Formatter<'_>) -> fmt::Result {
+                write!(f, "Mutex#{}", self.id)
+            }
+        }
+
+        impl<T> Deref for MutexGuard<'_, T> {
+            type Target = T;
+            fn deref(&self) -> &T {
+                self.inner.as_ref().unwrap()
+            }
+        }
+
+        impl<T> DerefMut for MutexGuard<'_, T> {
+            fn deref_mut(&mut self) -> &mut T {
+                self.inner.as_mut().unwrap()
+            }
+        }
+
+        impl<T> Drop for MutexGuard<'_, T> {
+            fn drop(&mut self) {
+                log("unlock", self.id, 0);
+                self.inner.take();
+            }
+        }
+
+        pub struct Arc<T>(loom::sync::Arc<T>);
+
+        impl<T> Arc<T> {
+            pub fn new(v: T) -> Self {
+                Self(loom::sync::Arc::new(v))
+            }
+
+            #[allow(clippy::should_implement_trait)]
+            pub fn clone(this: &Self) -> Self {
+                Self(loom::sync::Arc::clone(&this.0))
+            }
+
+            pub fn try_unwrap(this: Self) -> Result<T, Self> {
+                loom::sync::Arc::try_unwrap(this.0).map_err(Self)
+            }
+
+            pub fn into_inner(this: Self) -> Option<T> {
+                loom::sync::Arc::try_unwrap(this.0).ok()
+            }
+        }
+
+        impl<T> Clone for Arc<T> {
+            fn clone(&self) -> Self {
+                Self(loom::sync::Arc::clone(&self.0))
+            }
+        }
+
+        impl<T> Deref for Arc<T> {
+            type Target = T;
+            fn deref(&self) -> &T {
+                &self.0
+            }
+        }
+
+        impl<T: fmt::Debug> fmt::Debug for Arc<T> {
+            fn fmt(&self, f: &mut fmt::Formatter<'_>) -> fmt::Result {
+                fmt::Debug::fmt(&**self, f)
+            }
+        }
+    }
+}
+
+pub mod crossbeam_channel {
+    use super::{global, log, logval, VecDeque};
+    use ::std::fmt;
+    use loom::sync::{Arc, Condvar, Mutex};
+
+    struct State<T> {
+        q: VecDeque<T>,
+        cap: usize,
+        senders: usize,
+        receivers: usize,
+    }
+
+    struct Chan<T> {
+        st: Mutex<State<T>>,
+        not_empty: Condvar,
+        not_full: Condvar,
+        id: usize,
+    }
+
+    pub struct Sender<T>(Arc<Chan<T>>);
+    pub struct Receiver<T>(Arc<Chan<T>>);
+
+    pub struct SendError<T>(pub T);
+    #[derive(Debug, Clone, Copy, PartialEq, Eq)]
+    pub struct RecvError;
+
+    impl<T> fmt::Debug for SendError<T> {
+        fn fmt(&self, f: &mut fmt::Formatter<'_>) -> fmt::Result {
+            f.write_str("SendError(..)")
+        }
+    }
+
+    /// Bounded MPMC FIFO with crossbeam-channel's documented blocking and disconnection semantics.
+    pub fn bounded<T: 'static>(cap: usize) -> (Sender<T>, Receiver<T>) {
+        let id = {
+            let mut g = global();
+            let i = g.next_chan;
+            g.next_chan += 1;
+            i
+        };
+        log("chan_new", id, cap as i64);
+        let c = Arc::new(Chan {
+            st: Mutex::new(State {
+                q: VecDeque::new(),
+                cap,
+                senders: 1,
+                receivers: 1,
+            }),
+            not_empty: Condvar::new(),
+            not_full: Condvar::new(),
+            id,
+        });
+        (Sender(Arc::clone(&c)), Receiver(c))
+    }
+
+    impl<T: 'static> Sender<T> {
+        pub fn send(&self, v: T) -> Result<(), SendError<T>> {
+            let c = &self.0;
+            let mut st = c.st.lock().unwrap();
+            let mut blocked = false;
+            loop {
+                if st.receivers == 0 {
+                    drop(st);
+                    log("send_disconnected", c.id, logval(&v));
+                    return Err(SendError(v));
+                }
+                if st.q.len() < st.cap.max(1) {
+                    log("send", c.id, logval(&v));
+                    st.q.push_back(v);
+                    drop(st);
+                    c.not_empty.notify_one();
+                    return Ok(());
+                }
+                if !blocked {
+                    blocked = true;
+                    log("block_send", c.id, 0);
+                }
+                st = c.not_full.wait(st).unwrap();
+            }
+        }
+
+        pub fn len(&self) -> usize {
+            self.0.st.lock().unwrap().q.len()
+        }
+
+        pub fn is_empty(&self) -> bool {
+            self.len() == 0
+        }
+    }
+
+    impl<T: 'static> Receiver<T> {
+        pub fn recv(&self) -> Result<T, RecvError> {
+            let c = &self.0;
+            let mut st = c.st.lock().unwrap();
+            let mut blocked = false;
+            loop {
+                if let Some(v) = st.q.pop_front() {
+                    log("recv", c.id, logval(&v));
+                    drop(st);
+                    c.not_full.notify_one();
+                    return Ok(v);
+                }
+                if st.senders == 0 {
+                    drop(st);
+                    log("recv_disconnected", c.id, 0);
+                    return Err(RecvError);
+                }
+                if !blocked {
+                    blocked = true;
+                    log("block_recv", c.id, 0);
+                }
+                st = c.not_empty.wait(st).unwrap();
+            }
+        }
+
+        pub fn len(&self) -> usize {
+            self.0.st.lock().unwrap().q.len()
+        }
+
+        pub fn is_empty(&self) -> bool {
+            self.len() == 0
+        }
+    }
+
+    impl<T> Clone for Sender<T> {
+        fn clone(&self) -> Self {
+            self.0.st.lock().unwrap().senders += 1;
+            Self(Arc::clone(&self.0))
+        }
+    }
+
+    impl<T> Clone for Receiver<T> {
+        fn clone(&self) -> Self {
+            self.0.st.lock().unwrap().receivers += 1;
+            Self(Arc::clone(&self.0))
+        }
+    }
+
+    impl<T> Drop for Sender<T> {
+        fn drop(&mut self) {
+            let mut st = self.0.st.lock().unwrap();
+            st.senders -= 1;
+            let last = st.senders == 0;
+            drop(st);
+            if last {
+                self.0.not_empty.notify_all();
+            }
+        }
+    }
+
+    impl<T> Drop for Receiver<T> {
+        fn drop(&mut self) {
+            let mut st = self.0.st.lock().unwrap();
+            st.receivers -= 1;
+            let last = st.receivers == 0;
+            drop(st);
+            if last {
+                self.0.not_full.notify_all();
+            }
+        }
+    }
+}
